@@ -26,13 +26,18 @@ def cli_confirms(src, exp):
 
 def run(tier, seed):
     ck = Check("C05", "model_checking", tier, seed)
-    n, size = (300, 6) if tier == "quick" else (6000, 8)
+    n, size = (500, 6) if tier == "quick" else (8000, 8)
     total_disc = 0
     done = 0
     chunk = 1500
     while done < n:
         m = min(chunk, n - done)
-        progs, srcs = refrun.gen_programs(seed, m, size, base=done)
+        # the second half of the programs also uses structs, field access, tuple destructuring (let and for)
+        # and try blocks (generator feature "ext")
+        feats = {"ext": True} if done >= n // 2 else None
+        if feats is None:
+            m = min(m, n // 2 - done)
+        progs, srcs = refrun.gen_programs(seed, m, size, base=done, features=feats)
         res, exp = refrun.ref_expect(progs)
         ck.add_tlc(res)
         reals = batch("run", [{"id": p["id"], "src": srcs[p["id"]]} for p in progs])
